@@ -590,7 +590,7 @@ class TftpServer:
                                     socket.inet_ntop(
                                         socket.AF_INET6, cmsg_data[:16]
                                     ),
-                                    *req_dst_addr[2:],
+                                    *req_dst_addr[1:],
                                 )
                     else:
                         (req_data, req_addr) = self._socket.recvfrom(
